@@ -54,6 +54,7 @@ def run(ctx):
     from .C03 import rule_presence_by_membership
     ctx.do(rule_presence_by_membership, rule_id="C02.constraints")
     ctx.do(rule_definition_of_named_type)
+    ctx.do(rule_integer_tests_exclude_bool)
     # timestamps are emitted with the digits their slot prescribes only if every value went through the truncation pipeline
     from . import C15
     ctx.do(C15.rule_truncate, rule_id="C02.timestamp-pipeline")
@@ -476,6 +477,41 @@ def rule_definition_of_named_type(ctx, rule_id="C02.constraints"):
                           slot, cname, cname), found=[t for t, _p in gc])
     if n < 2:
         raise AnalysisError("fewer than 2 marking-definition constructors found")
+
+
+def rule_integer_tests_exclude_bool(ctx, rule_id="C02.constraints"):
+    """`isinstance(v, int)` is true for True / False (bool is a subclass of int).  A validation that refuses non-integers with
+    `if not isinstance(v, int): raise` therefore admits a JSON boolean, and the object is emitted with `true` where the
+    specification demands an integer.  Every such refusing test in validation code also refuses bool."""
+    run = ctx.run
+    prog = ctx.prog
+    sbase = prog.cls("stix2.base::_STIXBase")
+    n = 0
+    for fi in sorted(prog.functions.values(), key=lambda f: f.id):
+        if fi.module.relpath.startswith("stix2/test") or fi.cls is None:
+            continue
+        if not ((fi.name == "_check_object_constraints" and sbase in (fi.cls.mro or [])) or fi.name == "clean"):
+            continue
+        k_ = 0
+        for iff in [x for x in body_walk(fi.node) if isinstance(x, ast.If) and any(isinstance(s_, ast.Raise) for s_ in x.body)]:
+            for t in ast.walk(iff.test):
+                if not (isinstance(t, ast.UnaryOp) and isinstance(t.op, ast.Not) and isinstance(t.operand, ast.Call)
+                        and norm(t.operand.func) == "isinstance" and len(t.operand.args) == 2):
+                    continue
+                kinds = [norm(e) for e in (t.operand.args[1].elts if isinstance(t.operand.args[1], ast.Tuple) else [t.operand.args[1]])]
+                if "int" not in kinds or "bool" in kinds:
+                    continue
+                n += 1
+                k_ += 1
+                v = norm(t.operand.args[0])
+                okb = ("isinstance(%s, bool)" % v) in norm(iff.test) or any(
+                    pol is False and ("isinstance(%s, bool)" % v) in norm(tt) for tt, pol, _ in guard_chain(iff))
+                run.check(okb, rule_id, key(fi.module.relpath, fi.qualname, "integer-test-refuses-bool#%d" % k_),
+                          "a value is required to be an integer by `not isinstance(%s, int)` alone: True / False pass (bool is an int) "
+                          "and are emitted as JSON booleans where an integer is demanded" % v, file=fi.module.relpath, line=iff.lineno,
+                          function=fi.qualname, expected="isinstance(%s, bool) or not isinstance(%s, int)" % (v, v), found=short(iff.test, 90))
+    if n < 1:
+        raise AnalysisError("no integer-kind validation found in constraint code (anchor lost: SocketExt options)")
 
 
 def rule_init_loops(ctx, rule_id="C02.init-pipeline"):
